@@ -330,6 +330,27 @@ func runC11(c *Ctx) {
 		}
 	}
 	nPass := len(jobs) - nWhole - nVar
+	// long texts (normalisation done in chunks or through bounded buffers): a precomposed sentence
+	// repeated past 4 KiB and 64 KiB against its decomposed spelling
+	for _, li := range []int{3, 5, 6} {
+		base := strings.Join(coverSentences(c.M, li)[7], " ")
+		pre := c.pyNorm("NFC", []string{base})[0]
+		for _, reps := range []int{20, 300} {
+			jobs = append(jobs, pj{strings.Repeat(base+" ", reps), "", strings.Repeat(pre+" ", reps), "", "long text mnemonic"},
+				pj{"abandon", strings.Repeat(base+" ", reps), "abandon", strings.Repeat(pre+" ", reps), "long text passphrase"})
+		}
+	}
+	// marks in non-canonical order throughout a long text, at every alignment modulo 5 bytes: a
+	// normaliser that works in chunks (of any size up to 64 KiB) cuts between the two marks of some
+	// unit for at least one alignment and then cannot reorder them
+	for pad := 0; pad < 5; pad++ {
+		raw := strings.Repeat("x", pad) + strings.Repeat("a\u0301\u0323", 14000)
+		dec := strings.Repeat("x", pad) + strings.Repeat("a\u0323\u0301", 14000)
+		jobs = append(jobs, pj{raw, "", dec, "", "long run of misordered marks (mnemonic)"})
+		if c.Thorough || pad%2 == 0 {
+			jobs = append(jobs, pj{"abandon", raw, "abandon", dec, "long run of misordered marks (passphrase)"})
+		}
+	}
 	for _, k := range []int{5, 29, 30, 31} {
 		a := "a" + strings.Repeat("\u0301", k) + "\u0323"
 		b := "a" + "\u0323" + strings.Repeat("\u0301", k)
